@@ -27,15 +27,16 @@
 //                 {00,01,7f,80,Fe,fF}, all strings of 1..16 digits over {0,f}, all of 1..9 digits over {0,1,8,a,F}
 //   T3 \xHH     : unescape_x, all 22^2 digit pairs
 //   T4 \uXXXX   : unescape_u, all 22^4 digit strings (every 16-bit value in every upper/lower case spelling)
-//   T5 \UX{8}   : unescape_u, all values 0..0x11FFFF (lower case) and all 9^8 strings over {0,1,7,8,d,D,e,f,F}
+//   T5 \UX{8}   : unescape_u, all values 0..0x11FFFF (lower case) and all 8-digit strings over {0,1,8,d,f,F}
+//                 (quick, 6^8) resp. {0,1,7,8,d,D,e,f,F} (thorough, 9^8)
 //   T6 \u lists : unescape_j on list< \uXXXX >: all single escapes (22^4 spellings); ALL sequences of 1, 2 and 3
 //                 escapes over the 18 boundary spellings 0000 0001 007F 0080 07FF 0800 D7FF D800 DBFF DC00 DFFF E000
 //                 FFFF 007f d800 dBfF Dc00 dfff; every boundary value x every surrogate x every boundary value;
 //                 quick: ALL pairs surrogate x surrogate (2048^2), boundary x all 65536 and all 65536 x boundary
 //                 thorough: ALL 2^32 pairs of escapes
 //   T7 json     : tao::pegtl::json::string with the json_unescape action set of src/example/pegtl/json_unescape.hpp:
-//                 all sequences of 1..3 pieces over 19 pieces (13 boundary \u escapes, the 8 two-character escapes
-//                 are folded into 3 representatives, literal characters of 1, 2, 3 and 4 UTF-8 bytes)
+//                 all sequences of 1..3 pieces over 20 pieces (13 boundary \u escapes, 3 of the 8 two-character
+//                 escapes - all 8 are also run on their own -, literal characters of 1, 2, 3 and 4 UTF-8 bytes)
 //   T8 C escapes: unescape_c with three parameterisations (ISO C table, RFC 8259 table, one with '0' -> NUL and a
 //                 byte >= 0x80) x all 256 characters after the backslash
 //   T9 mixed    : the grammar of src/test/pegtl/contrib_unescape.cpp (\x \u \U \j-lists, C escapes, utf8::any
@@ -709,7 +710,7 @@ static void t4_u()
    for_strings( HEX22, 4, [ & ]( const std::string& d ) { check_grammar( g, "\\u" + d ); } );
 }
 
-static void t5_U()
+static void t5_U( const bool thorough )
 {
    const GramSpec& g = gram( "U" );
    char b[ 16 ];
@@ -719,7 +720,8 @@ static void t5_U()
       check_grammar( g, b );
       if( ( v & 0xFFFF ) == 0 && tick() ) return;
    }
-   for_strings( "0178dDefF", 8, [ & ]( const std::string& d ) { check_grammar( g, "\\U" + d ); } );
+   // most of these are refused by an exception (about 5 us each), hence the thinner alphabet in the quick tier
+   for_strings( thorough ? "0178dDefF" : "018dfF", 8, [ & ]( const std::string& d ) { check_grammar( g, "\\U" + d ); } );
 }
 
 static const std::vector< std::string > B18 = { "0000", "0001", "007F", "0080", "07FF", "0800", "D7FF", "D800", "DBFF", "DC00", "DFFF", "E000", "FFFF", "007f", "d800", "dBfF", "Dc00", "dfff" };
@@ -876,24 +878,35 @@ int main( int argc, char** argv )
    if( vf::args.nshards < 1 ) vf::args.nshards = 1;
    const bool thorough = vf::args.thorough();
 
-   vf::st.note = std::string( "C17 " ) + ( thorough ? "thorough" : "quick" ) + ": utf8_append_utf32 for ALL 2^32 argument values (prefix 'ab'; 0..0x110100 also on an empty string); unhex_char all 22 digits x 6 types; unhex_string: uchar/char all 1-2 digit strings, ushort ALL 1-4 digit strings (22^4), unsigned all 1-5 digit strings + 6-8 digits over {0,1,7,8,9,a,A,f,F}, int up to 7 digits, ulonglong 16 digits with bytes from {00,01,7f,80,Fe,fF} + {0,f}^1..16 + {0,1,8,a,F}^1..9; unescape_x all 22^2; unescape_u \\\\uXXXX all 22^4 spellings, \\\\UXXXXXXXX all values 0..0x11FFFF + {0,1,7,8,d,D,e,f,F}^8; unescape_j: all single escapes, ALL sequences of 1-3 escapes over 18 boundary spellings (0000 0001 007F 0080 07FF 0800 D7FF D800 DBFF DC00 DFFF E000 FFFF + case variants), boundary x every surrogate x boundary, " + ( thorough ? "ALL 2^32 pairs of escapes" : "all pairs surrogate x surrogate (2048^2) + boundary x all + all x boundary" ) + "; json::string with the json_unescape action set: all sequences of 1-3 pieces over 20 pieces; unescape_c: 3 tables x all 256 characters; contrib_unescape.cpp test grammar: all sequences of 1-4 pieces over 12 pieces. Driven through tao::pegtl::parse with action classes deriving from the helpers; inputs end at a PROT_NONE page.";
+   vf::st.note = std::string( "C17 " ) + ( thorough ? "thorough" : "quick" ) + ": utf8_append_utf32 for ALL 2^32 argument values (prefix 'ab'; 0..0x110100 also on an empty string); unhex_char all 22 digits x 6 types; unhex_string: uchar/char all 1-2 digit strings, ushort ALL 1-4 digit strings (22^4), unsigned all 1-5 digit strings + 6-8 digits over {0,1,7,8,9,a,A,f,F}, int up to 7 digits, ulonglong 16 digits with bytes from {00,01,7f,80,Fe,fF} + {0,f}^1..16 + {0,1,8,a,F}^1..9; unescape_x all 22^2; unescape_u \\uXXXX all 22^4 spellings, \\UXXXXXXXX all values 0..0x11FFFF + " + ( thorough ? "{0,1,7,8,d,D,e,f,F}^8" : "{0,1,8,d,f,F}^8" ) + "; unescape_j: all single escapes, ALL sequences of 1-3 escapes over 18 boundary spellings (0000 0001 007F 0080 07FF 0800 D7FF D800 DBFF DC00 DFFF E000 FFFF + case variants), boundary x every surrogate x boundary, " + ( thorough ? "ALL 2^32 pairs of escapes" : "all pairs surrogate x surrogate (2048^2) + boundary x all + all x boundary" ) + "; json::string with the json_unescape action set: all sequences of 1-3 pieces over 20 pieces; unescape_c: 3 tables x all 256 characters; contrib_unescape.cpp test grammar: all sequences of 1-4 pieces over 12 pieces. Driven through tao::pegtl::parse with action classes deriving from the helpers; inputs end at a PROT_NONE page.";
 
    check_grammar( gram( "j" ), "\\ud83d\\ude00", true );
    check_grammar( gram( "j" ), "\\ud83d\\u0041", true );
    check_grammar( gram( "json" ), "\"\\udbff\\udfff\\n\xE2\x82\xAC\"", true );
    check_grammar( gram( "U" ), "\\U00110000", true );
    check_grammar( gram( "c3" ), "\\0", true );
-   check_grammar( gram( "mix" ), "\\jd83d\\ude00", true );
+   check_grammar( gram( "mix" ), "\\jd83d\\jde00\\xe9", true );
 
+   double t_prev = vf::elapsed();
+   const auto lap = [ & ]( const char* name ) {
+      vf::count( name, long( ( vf::elapsed() - t_prev ) * 1000 ) );
+      t_prev = vf::elapsed();
+   };
    t2_unhex();
+   lap( "ms.t2_unhex" );
    if( !g_stop ) t3_x();
    if( !g_stop ) t4_u();
-   if( !g_stop ) t5_U();
+   lap( "ms.t3_t4_x_u" );
+   if( !g_stop ) t5_U( thorough );
+   lap( "ms.t5_U" );
    if( !g_stop ) t7_json();
    if( !g_stop ) t8_c();
    if( !g_stop ) t9_mix();
+   lap( "ms.t7_t8_t9_json_c_mix" );
    if( !g_stop ) t1_append();
+   lap( "ms.t1_append" );
    if( !g_stop ) t6_j( thorough );
+   lap( "ms.t6_j" );
 
    vf::count( "append.scalar_values_encoded", n_app_ok );
    vf::count( "append.invalid_values_refused", n_app_refused );
